@@ -14,7 +14,7 @@ from sa.cfg import CFG, own_nodes
 from sa.loader import AnalysisError, Unsupported, dotted_name, norm_text
 from sa.members import self_attr
 from sa.poly import Rat, ToRat, p_const
-from sa.report import where
+from sa.report import where, RuleProxy
 
 OBJECTIVES = {
     'torchtree.variational.kl.ELBO': [['S'], ['S', 'K']],
@@ -1011,6 +1011,11 @@ def run(ctx, rep):
     check_mvn_construction(ctx, rep)
     check_analytic_entropy_terms(ctx, rep)
     check_container_keeps_every_component(ctx, rep)
+    # log p and log q are one number per SAMPLE only if every block reports the right sample shape (C10.S: Distribution._sample_shape over the abstract shape cases, matrix-
+    # valued blocks included)
+    from props import c10 as _c10s
+    from sa.report import RuleProxy as _RPs
+    _c10s.check_distribution_sample_shape(ctx, _RPs(rep, 'C14.C', 'sample-shape::'))
     # options of the objectives reach the constructor parameter of their own name
     from props import c09
     c09.check_positional_options(ctx, rep, rule='C14.O', only=lambda ci: ci.module.name.startswith('torchtree.variational'))
